@@ -137,6 +137,7 @@ def instances(params):
         inst.append(("set_lower_bounds", sub))
         inst.append(("set_upper_bounds", sub))
     inst.append(("set_known_values", []))
+    inst.append(("set_values_duplicate", [2 ** n - 1]))
     inst.append(("copy", []))
     inst.append(("neg", []))
     inst.append(("getters", []))
@@ -169,15 +170,18 @@ def scenario(pk, params, inp):
         elif op == "set_values_all":
             g.set_values(_arr(pk, x))
         elif op == "set_values_subset":
-            g.set_values(_arr(pk, [x[S] for S in arg]), [C(S) for S in arg])
+            g.set_values(_arr(pk, [x[S] for S in arg]), (C(S) for S in arg) if len(arg) == 3 else [C(S) for S in arg])
         elif op == "set_known_values":
-            g.set_known_values([x[S] for S in arg], [C(S) for S in arg])
+            g.set_known_values(iter([x[S] for S in arg]), (C(S) for S in arg) if len(arg) == 2 else [C(S) for S in arg])
+        elif op == "set_values_duplicate":
+            S = arg[0]
+            g.set_values(_arr(pk, [x[S], inp.real(f"h{S}")]), [C(S), C(S)])
         elif op in ("set_lower_bounds", "set_upper_bounds"):
             fn = g.set_lower_bounds if op == "set_lower_bounds" else g.set_upper_bounds
             if arg == ["all"]:
                 fn(_arr(pk, x))
             else:
-                fn(_arr(pk, [x[S] for S in arg]), [C(S) for S in arg])
+                fn(_arr(pk, [x[S] for S in arg]), (C(S) for S in arg) if len(arg) == 2 else [C(S) for S in arg])
         elif op == "copy":
             c = g.copy()
             res["copy_equal"] = _read(pk, c, n)
@@ -220,11 +224,35 @@ def scenario(pk, params, inp):
             res["intervals"] = [[g.get_interval(C(S))[0], g.get_interval(C(S))[1]] for S in range(2 ** n)]
             res["lower_bounds"] = list(g.get_lower_bounds())
             res["upper_bounds"] = list(g.get_upper_bounds([C(S) for S in range(2 ** n)]))
+            # coalition-list arguments: unsorted lists and one-shot iterators
+            subs = _getter_lists(n)
+            res["sub"] = []
+            for lst in subs:
+                entry = {"lst": lst}
+                entry["lower"] = list(g.get_lower_bounds(iter([C(S) for S in lst])))
+                entry["upper"] = list(g.get_upper_bounds([C(S) for S in lst]))
+                entry["intervals"] = [[r[0], r[1]] for r in g.get_intervals([C(S) for S in lst])]
+                entry["known"] = [bool(b) for b in g.are_values_known(C(S) for S in lst)]
+                kv = g.get_known_values([C(S) for S in lst])
+                entry["known_values"] = [_nan_to_none(x) for x in kv]
+                try:
+                    entry["values"] = ["ok"] + list(g.get_values(C(S) for S in lst))
+                except ValueError:
+                    entry["values"] = ["raises"]
+                res["sub"].append(entry)
         res["table"] = _read(pk, g, n)
         out[key] = res
     fresh = pk.game.IncompleteCooperativeGame(n)
     out["fresh"] = _read(pk, fresh, n)
     return out
+
+
+def _getter_lists(n):
+    N = 2 ** n
+    lists = [[N - 1, 0], [0]]
+    if N >= 4:
+        lists += [[2, 1, 3], [3, 3, 1]]
+    return lists
 
 
 def _nan_to_none(v):
@@ -291,6 +319,15 @@ def claims(params, inp, out, lg):
         elif op == "set_values_subset":
             for S in arg:
                 want[S] = [True, x[S], x[S]]
+        elif op == "set_values_duplicate":
+            S = arg[0]
+            got = res["table"]
+            cl.append((f"{tag}:known-with-one-of-the-values", lg.And(got[S][0] is True, lg.eq(got[S][1], got[S][2]),
+                                                                    lg.Or(lg.eq(got[S][1], x[S]), lg.eq(got[S][1], h[S])))))
+            for T in range(N):
+                if T != S:
+                    cl += _rows_eq(lg, [got[T]], [want[T]], f"{tag}:others-untouched:row{T}")
+            continue
         elif op == "set_known_values":
             got = res["table"]
             keep = set(arg) | {0}
@@ -344,6 +381,20 @@ def claims(params, inp, out, lg):
                 cl.append((f"{tag}:are_values_known:S={S}", res["are_values_known"][S] == st[S][0]))
                 cl.append((f"{tag}:interval:S={S}", lg.And(lg.eq(res["intervals"][S][0], st[S][1]), lg.eq(res["intervals"][S][1], st[S][2]),
                                                           lg.eq(res["lower_bounds"][S], st[S][1]), lg.eq(res["upper_bounds"][S], st[S][2]))))
+            for e in res["sub"]:
+                lst = e["lst"]
+                t2 = f"{tag}:list{lst}"
+                cl.append((f"{t2}:bounds-in-list-order", lg.And([lg.And(lg.eq(e["lower"][i], st[S][1]), lg.eq(e["upper"][i], st[S][2]),
+                                                                       lg.eq(e["intervals"][i][0], st[S][1]), lg.eq(e["intervals"][i][1], st[S][2]))
+                                                                for i, S in enumerate(lst)], len(e["lower"]) == len(lst))))
+                cl.append((f"{t2}:known-flags", e["known"] == [st[S][0] for S in lst]))
+                cl.append((f"{t2}:known-values-or-none", lg.And([(lg.eq(e["known_values"][i], st[S][1]) if e["known_values"][i] is not None else False)
+                                                               if st[S][0] else (e["known_values"][i] is None) for i, S in enumerate(lst)])))
+                if all(st[S][0] for S in lst):
+                    cl.append((f"{t2}:values", lg.And(e["values"][0] == "ok", [lg.eq(e["values"][1 + i], st[S][1]) for i, S in enumerate(lst)]
+                                                     if e["values"][0] == "ok" else False)))
+                else:
+                    cl.append((f"{t2}:values-raise-when-any-unknown", e["values"][0] == "raises"))
             allk = all(st[S][0] for S in range(N))
             cl.append((f"{tag}:full", res["full"] == allk))
             cl.append((f"{tag}:get_values-all", res["get_values_all"] == ("ok" if allk else "raises")))
